@@ -34,16 +34,18 @@ import (
 
 // ------------------------------------------------------------------ fixture (mirrors spec/ConfigLayers.tla)
 
-var optIDs = []string{"str", "arr", "num", "flg", "re", "al", "fn", "beta", "exp", "rl"}
+var optIDs = []string{"str", "arr", "num", "flg", "re", "al", "fn", "nre", "nal", "are", "beta", "exp", "rl"}
 
 var keyOf = map[string]string{
 	"str": "t/str", "arr": "t/arr", "num": "t/num", "flg": "t/flg", "re": "t/re", "al": "t/al", "fn": "t/fn",
+	"nre": "t/nre", "nal": "t/nal", "are": "t/are",
 	"beta": "t/beta", "exp": "t/exp", "rl": "core/releaseLevel", "unk": "t/unknown",
 }
 
 var typeOf = map[string]config.OptionType{
 	"str": config.OptTypeString, "arr": config.OptTypeStringArray, "num": config.OptTypeInt, "flg": config.OptTypeBool,
 	"re": config.OptTypeString, "al": config.OptTypeString, "fn": config.OptTypeInt, "beta": config.OptTypeString,
+	"nre": config.OptTypeInt, "nal": config.OptTypeInt, "are": config.OptTypeStringArray,
 	"exp": config.OptTypeInt, "rl": config.OptTypeString,
 }
 
@@ -88,6 +90,11 @@ func registerOptions() error {
 				return nil
 			}
 		}),
+		reg("nre", 0, func(o *config.Option) { o.ValidationRegex = "^-?[0-9]+$" }),
+		reg("nal", 4, func(o *config.Option) {
+			o.PossibleValues = []config.PossibleValue{{Name: "four", Value: 4}, {Name: "six", Value: 6}, {Name: "big", Value: 1 << 53}}
+		}),
+		reg("are", []string{"a"}, func(o *config.Option) { o.ValidationRegex = "^[ab]+$" }),
 		reg("beta", "d", func(o *config.Option) { o.ReleaseLevel = config.ReleaseLevelBeta }),
 		reg("exp", 1, func(o *config.Option) { o.ReleaseLevel = config.ReleaseLevelExperimental }),
 	}
